@@ -21,7 +21,8 @@ Section Mem.
 
   Definition mem_text (bs : bytes) : Z :=
     match read_u8 bs with
-    | Ok tag r => if tag =? 8 then match read_be 2 r with Ok len _ => len | Er _ => 0 end else 0
+    | Ok tag r => if tag =? 8 then match read_be 2 r with Ok len _ => len | Er _ => 0 end
+                  else Z.of_nat (length bs)     (* any other tag: the rest of the body is read into one buffer (read_to_end) *)
     | Er _ => 0
     end.
 
